@@ -2,7 +2,7 @@
 // crash or a hang is attributed to that file), then a battery of operations runs on whatever was loaded.
 //   battery <infile> <outfile> <scratchdir> <goodhex-file>
 // infile lines: "<name> <hex>"; one output line per input line:
-//   <name> mem=<ok|err:site> empty=<0|1|-> reuse=<0|1|-> disk=<ok|err:site> ctor=<ok|err> cmem=<status> cdisk=<status> bat=<summary> | <dump or ->
+//   <name> mem=<ok|err:site> empty=<0|1|-> reuse=<0|1|-> disk=<ok|err:site> ctor=<ok|err> cmem=<status> cdisk=<status> bat=<summary> lk=<lookup probes> | <dump or ->
 //   <name> CRASH <how> <first lines of the sanitizer report>
 #include "fits_common.h"
 #include <sys/wait.h>
@@ -59,6 +59,30 @@ static std::string battery(const Table& t, Rng& r) {
   return o.str();
 }
 
+// deterministic lookup probes formed from the knot values of the table that was read (the Lean driver `C07`, command L,
+// forms the same ones on the model's table and runs the lookup model on `Table.lookupAxes`): probe p takes in
+// dimension i knot number j = (7p + 3i + p*p) mod nknots[i], for odd p the midpoint with the next knot; probe 11 puts
+// a NaN into dimension 11 mod ndim.  Result: R = rejected, else the centres joined by '.'; probes joined by ';'.
+static std::string probes(const Table& t) {
+  std::ostringstream o; uint32_t nd = t.ndim;
+  std::vector<double> x(nd); std::vector<int> c(nd);
+  for (uint32_t i = 0; i < nd; i++) if (t.nknots[i] == 0) return "-";
+  for (uint64_t p = 0; p < 12; p++) {
+    for (uint32_t i = 0; i < nd; i++) {
+      uint64_t nk = t.nknots[i], j = (7 * p + 3 * uint64_t(i) + p * p) % nk;
+      volatile double a = t.knots[i][j];
+      if (p % 2 == 1) { volatile double b = t.knots[i][(j + 1) % nk]; volatile double s = a + b; a = s * 0.5; }
+      x[i] = a;
+    }
+    if (p == 11) x[11 % nd] = std::numeric_limits<double>::quiet_NaN();
+    if (p) o << ";";
+    bool ok = false;
+    try { ok = t.searchcenters(x.data(), c.data()); } catch (std::exception&) { o << "X"; continue; }
+    if (!ok) o << "R"; else for (uint32_t i = 0; i < nd; i++) { if (i) o << "."; o << c[i]; }
+  }
+  return o.str();
+}
+
 // after a failed read the object must be empty and reusable
 static void after_failure(Table& t, int& empty, int& reuse) {
   empty = object_empty(t) ? 1 : 0;
@@ -75,17 +99,17 @@ static void child(const std::string& name, const std::vector<unsigned char>& b, 
   std::string diskdump = "-";
   {
     std::ostringstream o;
-    std::string res, bat = "-", ctor; int empty = -1, reuse = -1, cdisk;
+    std::string res, bat = "-", lk = "-", ctor; int empty = -1, reuse = -1, cdisk;
     {
       Table t; bool ok = false;
       try { t.read_fits(path); ok = true; res = "ok"; } catch (std::exception& e) { res = "err:" + site_of(e.what()); }
-      if (ok) { diskdump = dump(spec_of(t)); bat = battery(t, r); } else after_failure(t, empty, reuse);
+      if (ok) { diskdump = dump(spec_of(t)); lk = probes(t); bat = battery(t, r); } else after_failure(t, empty, reuse);
     }   // destructor
     try { Table t(path); ctor = "ok"; } catch (std::exception& e) { ctor = "err"; }
     { struct splinetable cd; cd.data = nullptr; cdisk = readsplinefitstable(path.c_str(), &cd);
       if (cdisk == 0) { Table* tt = (Table*)cd.data; std::vector<double> x(tt->ndim, 0.5); std::vector<int> cc(tt->ndim); tablesearchcenters(&cd, x.data(), cc.data()); }
       splinetable_free(&cd); }
-    o << "D " << name << " disk=" << res << " empty=" << empty << " reuse=" << reuse << " ctor=" << ctor << " cdisk=" << cdisk << " bat=" << bat << " | " << diskdump << "\n";
+    o << "D " << name << " disk=" << res << " empty=" << empty << " reuse=" << reuse << " ctor=" << ctor << " cdisk=" << cdisk << " bat=" << bat << " lk=" << lk << " | " << diskdump << "\n";
     std::string s = o.str(); (void)!write(fd, s.data(), s.size());
   }
   unlink(path.c_str());
